@@ -663,7 +663,7 @@ fn input_contexts(defs: &dmntk_model::model::Definitions, base: &str) -> Vec<Fee
   let mut wrong = vec![];
   let mut nulls = vec![];
   // wrong-kind values of some size: long multi-byte strings behind 0..3 ASCII bytes, a long list, a deep context
-  let mut big: Vec<Vec<String>> = vec![vec![], vec![], vec![], vec![], vec![], vec![]];
+  let mut big: Vec<Vec<String>> = vec![vec![], vec![], vec![], vec![], vec![], vec![], vec![]];
   for id in defs.input_data() {
     let name = id.name().to_string();
     if name.is_empty() || name.contains('"') || name.contains(':') || name.contains('{') || name.contains('}') || name.contains(',') {
@@ -690,6 +690,7 @@ fn input_contexts(defs: &dmntk_model::model::Definitions, base: &str) -> Vec<Fee
     }
     big[4].push(format!("{}: [{}]", name, (0..40).map(|i| i.to_string()).collect::<Vec<_>>().join(", ")));
     big[5].push(format!("{}: {}{}{}", name, "{k: ".repeat(40), "-99999999999999999999999999999999.5", "}".repeat(40)));
+    big[6].push(format!("{}: {}1{}", name, "[".repeat(40), "]".repeat(40)));
   }
   let mut texts = vec!["{}".to_string(), format!("{{{}}}", right.join(", ")), format!("{{{}}}", wrong.join(", ")), format!("{{{}}}", nulls.join(", "))];
   if !right.is_empty() {
